@@ -209,8 +209,15 @@ impl Check for C01 {
             // 2^23, 2^24 and the protocol's largest message
             for (size, len) in [(0x80_0000u32, 0x80_0001usize), (0x80_0001, 0x80_0001), (0xFF_FFFF, 16_777_215), (0x100_0000, 16_777_215), (0x7FFF_FFFF, 16_777_215), (0x7FFF_FFFF, 9_000_000)] {
                 let ops = vec![Op::SetChunk { size, ts: 0 }, mk(9, 1, 5, len), mk(8, 1, 6, 3)];
-                run_history(&ops, rng, out, 0);
+                run_history(&ops, rng, out, 2);
                 out.count("large_chunk_large_payload_histories", 1);
+            }
+            // chunk sizes of one to a few MiB with messages of two to four such chunks, in pieces
+            // that end inside the chunks (every partition style caps its number of pieces)
+            for (size, len) in [(0x10_0001u32, 0x20_0007usize), (0x10_0001, 0x10_0002), (1_500_000, 3_300_000), (0x20_0000, 0x60_0001), (0x40_0000, 0x40_0001), (3_000_000, 9_000_001)] {
+                let ops = vec![Op::SetChunk { size, ts: 0 }, mk(9, 1, 5, len), mk(8, 1, 6, 3), mk(9, 1, 7, len - 1)];
+                run_history(&ops, rng, out, 4);
+                out.count("megabyte_chunks_delivered_in_pieces", 1);
             }
             // one message cut into more than 65,536 chunks (counters and per-call bounds), delivered
             // whole, per packet and in random pieces
@@ -241,7 +248,7 @@ impl Check for C01 {
         out.sample(|| json!({"history": chunkgen::ops_json(&ops[..ops.len().min(6)]), "ops_total": ops.len()}));
     }
     fn rule(&self) -> String {
-        "histories of 1-40 operations Msg{type 0..255, msid, ts, payload, force_uncompressed, can_be_dropped} | set_max_chunk_size{1..2^31-1}: runs on the same chunk stream with equal/different msid and length, timestamp steps {0, repeat, 1, 33, 40, 0xFFFFFE, 0xFFFFFF, 0x1000000, backwards, across 2^32, 2^31-1, random}, lengths {0, 1, size-1, size, size+1, 2*size, 2*size+1, 3*size-1, <=70000, rarely <=1 MiB; thorough: 16,777,215}, chunk sizes {1,2,3,31,127,128,129,1000,4096,65536,2^24-1,2^24,2^24+..,2^31-1, uniform}; plus fixed histories pairing chunk sizes {2^23, 2^23+1, 2^24-1, 2^24, 2^31-1} with payloads {2^23+1, 9,000,000, 16,777,215}; each delivered whole, per packet and in 3 random partitions (byte-by-byte, small pieces, mixed with empty calls, two pieces, few large). Non-trivial = a compressed header, an extended timestamp, a multi-chunk message or a size change was observed in the library's bytes (by the independent decoder); distinct = hash of the per-message (csid, fmt, ext, chunk-count bucket, chunk-size bucket) sequence.".to_string()
+        "histories of 1-40 operations Msg{type 0..255, msid, ts, payload, force_uncompressed, can_be_dropped} | set_max_chunk_size{1..2^31-1}: runs on the same chunk stream with equal/different msid and length, timestamp steps {0, repeat, 1, 33, 40, 0xFFFFFE, 0xFFFFFF, 0x1000000, backwards, across 2^32, 2^31-1, random}, lengths {0, 1, size-1, size, size+1, 2*size, 2*size+1, 3*size-1, <=70000, rarely <=1 MiB; thorough: 16,777,215}, chunk sizes {1,2,3,31,127,128,129,1000,4096,65536,2^24-1,2^24,2^24+..,2^31-1, uniform}; plus fixed histories pairing chunk sizes {2^23, 2^23+1, 2^24-1, 2^24, 2^31-1} with payloads {2^23+1, 9,000,000, 16,777,215}, and chunk sizes of 1-4 MiB with messages of two to four chunks; each delivered whole, per packet and in 3 random partitions (byte-by-byte, small pieces, mixed with empty calls, two pieces, few large). Non-trivial = a compressed header, an extended timestamp, a multi-chunk message or a size change was observed in the library's bytes (by the independent decoder); distinct = hash of the per-message (csid, fmt, ext, chunk-count bucket, chunk-size bucket) sequence.".to_string()
     }
     fn assumptions(&self) -> Vec<String> {
         vec![
